@@ -315,7 +315,7 @@ theorem interrupt_begin_sets_flag (ms : List Move) : (move (reach ms) .intrBegin
 theorem interrupt_end_signals (ms : List Move) (h : (reach ms).pendingEfd ≠ 0) :
     0 < (move (reach ms) .intrEnd).eventfd ∧ (move (reach ms) .intrEnd).pendingEfd = (reach ms).pendingEfd - 1 := by
   simp only [move, h, if_false]
-  exact ⟨Nat.succ_pos _, rfl⟩
+  exact ⟨Nat.succ_pos _, trivial⟩
 
 /-- interrupt() sets the flag (idempotently) -/
 theorem interrupt_sets_flag (s : St) : (applyAct s none .interrupt).interrupted = true := by
